@@ -108,7 +108,8 @@ func mergeKeys(inputChan <-chan keyBatchEvent, outputChan chan<- keyBatchEvent, 
 
 	states := make(map[string]stateMerge, settings.batchSize)
 	for batch := range inputChan {
-		var err error
+		// a failed page of keys must be reported, not dropped: the listing is incomplete
+		err := batch.err
 		filtered := make([]string, 0, len(batch.keys))
 		for _, key := range batch.keys {
 			apc, erp := model.GetArchivePathComponents(key)
